@@ -117,11 +117,11 @@ PLANS = {
         assumptions=['inside side-by-side table cells a reference may be cut by the cell boundary: there only membership in 1..n and uniqueness of complete references are checked, the footnote block is always checked exactly'],
     ),
     'C09': dict(
-        fams=[('c09', dict(quick=3000, thorough=60000), {})],
+        fams=[('c09', dict(quick=3000, thorough=60000), {}), ('c19', dict(quick=1500, thorough=20000), {})],
         mc=[MC_BLOCK],
         nontrivial=lambda rec: bool(rec.get('runs')) and rec['runs'][0]['res']['k'] == 'ok' and any(len(x) > 2 and len(x[2]) >= 2 for ln in rec['runs'][0]['res']['lines'] for x in ln),
-        rule='grammar documents with random nestings of em/i/strong/s/del/code/a/img/pre/span/sup inside paragraphs, lists, quotes, headings, table cells; widths 1..100 (half <= 25); rich lines route compared letter by letter with the annotation vector of the DOM ancestors, and with the rich string route; non-trivial = Ok with some cell carrying >= 2 annotations; distinct by sha256(runs)',
-        assumptions=['for side-by-side tables the (letter, vector) pairs are compared as multisets', 'CSS colour annotations are covered by C19/C20'],
+        rule='grammar documents with random nestings of em/i/strong/s/del/code/a/img/pre/span/sup inside paragraphs, lists, quotes, headings, table cells; widths 1..100 (half <= 25); rich lines route compared letter by letter with the annotation vector of the DOM ancestors, and with the rich string route; plus the C19 family (documents with sheets, tables included) judged by the colour clause (effective colour of every letter = reference cascade); non-trivial = Ok with some cell carrying >= 2 annotations; distinct by sha256(runs)',
+        assumptions=['for side-by-side tables the (letter, vector) pairs are compared as multisets'],
     ),
     'C05': dict(
         fams=[('c05', dict(quick=5000, thorough=60000), {})],
